@@ -19,10 +19,10 @@ Local Open Scope nat_scope.
 
 (** every valid extension passes the validity check of C10, meets its rules and lies in the domain of C10_iff *)
 Theorem C07_valid_content :
-  forall (qtok : Q -> str) (e : ext jv),
+  forall (qtok : Q -> str) (reo : option (list (list Q))) (e : ext jv),
     valid e ->
-    CM.check_valid (to_content qtok e) = Ok tt /\
-    CS.valid_spec (to_content qtok e) = true /\ CS.wf_domain (to_content qtok e) = true.
+    CM.check_valid (to_content_r qtok reo e) = Ok tt /\
+    CS.valid_spec (to_content_r qtok reo e) = true /\ CS.wf_domain (to_content_r qtok reo e) = true.
 Proof. exact valid_to_content. Qed.
 
 Example C07_valid_content_nonvacuous :
@@ -40,9 +40,9 @@ Qed.
     dictionary, constants are singletons, the keys of one class are distinct) with base dictionaries exactly for
     the classes of the shape, positive extents and no key in a varying class of multiplicity one. *)
 Theorem C07_content_valid_partial :
-  forall (qtok : Q -> str) (e : ext jv),
+  forall (qtok : Q -> str) (reo : option (list (list Q))) (e : ext jv),
     storable e -> hdr_tight (hdr_of e) -> Forall (fun n => 1 <= n) (shape (hdr_of e)) -> nondegenerate e ->
-    CM.check_valid (to_content qtok e) = Ok tt -> valid e.
+    CM.check_valid (to_content_r qtok reo e) = Ok tt -> valid e.
 Proof. exact to_content_valid_partial. Qed.
 
 Example C07_content_valid_partial_nonvacuous :
@@ -53,63 +53,88 @@ Proof.
   split; [repeat constructor|]. split; [apply lx5_ok | vm_compute; reflexivity].
 Qed.
 
-(** each dropped hypothesis is needed: the check passes and the extension is not valid for
-    (1) three values in ('time','samples') of multiplicity one, (2) a zero extent, (3) a key in a stale
-    'time' dictionary of a 3-D extension.  (1)-(3) are the blind spots of check_valid of finding N14. *)
+(** each dropped hypothesis is needed: ONE witness per hypothesis, satisfying the three others, on which the check passes
+    and the extension is not valid:
+    (1) [nondegenerate]: three values in ('time','samples') of multiplicity one;   (2) positive extents: a zero extent;
+    (3) [hdr_tight]: a key (two values, multiplicity 2) in the stale 'time' dictionaries of a (2,2,2,1,2) extension;
+    (4) [storable]: the same key when the 'time' dictionaries do not exist -- [to_content] has nowhere to put it.
+    (1)-(3) are the blind spots of check_valid of the open finding N14 (a, c, b). *)
 Theorem C07_content_valid_refuted :
   (storable lx_degenerate /\ hdr_tight (hdr_of lx_degenerate) /\ Forall (fun n => 1 <= n) (shape (hdr_of lx_degenerate)) /\
+   ~ nondegenerate lx_degenerate /\
    CM.check_valid (to_content qtok_dec lx_degenerate) = Ok tt /\ ~ valid lx_degenerate) /\
   (storable lx_zero /\ hdr_tight (hdr_of lx_zero) /\ nondegenerate lx_zero /\
+   ~ Forall (fun n => 1 <= n) (shape (hdr_of lx_zero)) /\
    CM.check_valid (to_content qtok_dec lx_zero) = Ok tt /\ ~ valid lx_zero) /\
-  (Forall (fun n => 1 <= n) (shape (hdr_of lx_stale)) /\
-   CM.check_valid (to_content qtok_dec lx_stale) = Ok tt /\ ~ valid lx_stale).
+  (storable lx_untight /\ Forall (fun n => 1 <= n) (shape (hdr_of lx_untight)) /\ nondegenerate lx_untight /\
+   ~ hdr_tight (hdr_of lx_untight) /\
+   CM.check_valid (to_content qtok_dec lx_untight) = Ok tt /\ ~ valid lx_untight) /\
+  (hdr_tight (hdr_of lx_unstorable) /\ Forall (fun n => 1 <= n) (shape (hdr_of lx_unstorable)) /\ nondegenerate lx_unstorable /\
+   ~ storable lx_unstorable /\
+   CM.check_valid (to_content qtok_dec lx_unstorable) = Ok tt /\ ~ valid lx_unstorable).
 Proof.
   assert (St : forall e : jext, (forall k c vs, In (k, (c, vs)) (entries e) -> has_base (hdr_of e) (base_of c) = true) ->
                (forall k vs, In (k, (GConst, vs)) (entries e) -> length vs = 1) ->
                length (entries e) = 1 -> storable e).
   { intros e H1 H2 H3. split; [exact H1|]. split; [exact H2|]. intros c. unfold class_entries.
     destruct (entries e) as [|x [|y l]]; try discriminate H3. cbn [filter]. destruct (cls_eqb _ c); repeat constructor; intros []. }
-  split; [|split].
+  assert (Nd : forall (h : hdr) k (vs : list jv), mult_spec (dims h) TSamples <> 1 -> nondegenerate (mk_ext h [(k, (TSamples, vs))])).
+  { intros h k vs Hm k' c' vs' [[= <- <- <-]|[]] _. exact Hm. }
+  split; [|split; [|split]].
   - split; [apply St; [intros k c vs [[= <- <- <-]|[]]; reflexivity | intros k vs [[=]|[]] | reflexivity]|].
     split; [intros c; destruct c; reflexivity|]. split; [repeat constructor|].
+    split; [intros Hn; apply (Hn kt TSamples [JInt 1; JInt 2; JInt 3]); [left; reflexivity | discriminate | reflexivity]|].
     split; [vm_compute; reflexivity | apply not_valid_b; vm_compute; reflexivity].
   - split; [apply St; [intros k c vs [[= <- <- <-]|[]]; reflexivity | intros k vs [[= <- <-]|[]]; reflexivity | reflexivity]|].
     split; [intros c; destruct c; reflexivity|].
     split; [intros k c vs [[= <- <- <-]|[]] Hc; exfalso; apply Hc; reflexivity|].
+    split; [intros Hp; inversion Hp as [|? ? H0 _]; subst; inversion H0|].
     split; [vm_compute; reflexivity | apply not_valid_b; vm_compute; reflexivity].
-  - split; [repeat constructor|]. split; [vm_compute; reflexivity | apply not_valid_b; vm_compute; reflexivity].
+  - split; [apply St; [intros k c vs [[= <- <- <-]|[]]; reflexivity | intros k vs [[=]|[]] | reflexivity]|].
+    split; [repeat constructor|]. split; [apply Nd; vm_compute; discriminate|].
+    split; [intros H; specialize (H TSamples); discriminate H|].
+    split; [vm_compute; reflexivity | apply not_valid_b; vm_compute; reflexivity].
+  - split; [intros c; destruct c; reflexivity|]. split; [repeat constructor|]. split; [apply Nd; vm_compute; discriminate|].
+    split; [intros [H _]; specialize (H kt TSamples [JInt 1; JInt 2] (or_introl eq_refl)); discriminate H|].
+    split; [vm_compute; reflexivity | apply not_valid_b; vm_compute; reflexivity].
 Qed.
 
 (** a valid extension can be written (to_json with the REAL check_valid), and when its keys / values / affine
     tokens are JSON well formed the text loads back (from_json with the real check_valid) to the same content *)
 Theorem C07_serialisable :
-  forall (qtok : Q -> str) (e : ext jv),
+  forall (qtok : Q -> str) (reo : option (list (list Q))) (e : ext jv),
     valid e ->
-    exists s, JM.to_json CM.check_valid (to_content qtok e) = Ok s /\
-              (ext_wf_json e = true -> aff_toks_ok qtok (hdr_of e) = true ->
-               JM.from_json CM.check_valid s = Ok (to_content qtok e)).
+    exists s, JM.to_json CM.check_valid (to_content_r qtok reo e) = Ok s /\
+              (ext_wf_json e = true -> aff_toks_ok qtok (hdr_of e) = true -> reo_toks_ok qtok reo = true ->
+               JM.from_json CM.check_valid s = Ok (to_content_r qtok reo e)).
 Proof. exact serialisable. Qed.
 
 Example C07_serialisable_nonvacuous :
   valid lx5 /\ ext_wf_json lx5 = true /\ aff_toks_ok qtok_dec (hdr_of lx5) = true /\
   JM.to_json CM.check_valid (to_content qtok_dec lx5) = Ok (JM.print (to_content qtok_dec lx5)) /\
   JM.from_json CM.check_valid (JM.print (to_content qtok_dec lx5)) = Ok (to_content qtok_dec lx5) /\
-  length (JM.print (to_content qtok_dec lx5)) = 1712.
-Proof. split; [apply lx5_ok|]. repeat split; vm_compute; reflexivity. Qed.
+  length (JM.print (to_content qtok_dec lx5)) = 1712 /\
+  (* with a reorientation transform, as after a conversion with a voxel order *)
+  reo_toks_ok qtok_dec lx_reo = true /\
+  JM.from_json CM.check_valid (JM.print (to_content_r qtok_dec lx_reo lx5)) = Ok (to_content_r qtok_dec lx_reo lx5) /\
+  to_content_r qtok_dec lx_reo lx5 <> to_content qtok_dec lx5.
+Proof.
+  split; [apply lx5_ok|]. repeat split; try (vm_compute; reflexivity). vm_compute. discriminate.
+Qed.
 
 (** EVERY extension produced by a finite history of the operations of C07_closure (get_subset, from_sequence,
     filter_meta, clear_slice_meta, nitool inject; each inside its precondition) is valid, passes check_valid, can be
     serialised, and reloads to itself when its keys / values / affine tokens are JSON well formed *)
 Theorem C07_closure_serialisable :
-  forall (qtok : Q -> str) (veqb : jv -> jv -> bool) (vnone : jv),
+  forall (qtok : Q -> str) (reo : option (list (list Q))) (veqb : jv -> jv -> bool) (vnone : jv),
     (forall v, veqb v v = true) ->
     forall (ops : list (op jv)) (e r : ext jv),
       valid e -> nondegenerate e -> ops_dom veqb vnone ops e -> run veqb vnone ops e = Ok r ->
       valid r /\ nondegenerate r /\
-      CM.check_valid (to_content qtok r) = Ok tt /\
-      exists s, JM.to_json CM.check_valid (to_content qtok r) = Ok s /\
-                (ext_wf_json r = true -> aff_toks_ok qtok (hdr_of r) = true ->
-                 JM.from_json CM.check_valid s = Ok (to_content qtok r)).
+      CM.check_valid (to_content_r qtok reo r) = Ok tt /\
+      exists s, JM.to_json CM.check_valid (to_content_r qtok reo r) = Ok s /\
+                (ext_wf_json r = true -> aff_toks_ok qtok (hdr_of r) = true -> reo_toks_ok qtok reo = true ->
+                 JM.from_json CM.check_valid s = Ok (to_content_r qtok reo r)).
 Proof. exact closure_serialisable. Qed.
 
 Definition lx_ops : list (op jv) :=
@@ -139,14 +164,15 @@ Qed.
     the history produces is valid, is written by to_json and read back by from_json (both with the real check_valid)
     to the very same content *)
 Theorem C07_closure_reloads :
-  forall (qtok : Q -> str) (veqb : jv -> jv -> bool),
+  forall (qtok : Q -> str) (reo : option (list (list Q))) (veqb : jv -> jv -> bool),
     (forall v, veqb v v = true) ->
     forall (ops : list (op jv)) (e r : ext jv),
       valid e -> nondegenerate e -> ops_dom veqb JNull ops e -> jsonable qtok e -> ops_jsonable qtok ops ->
+      reo_toks_ok qtok reo = true ->
       run veqb JNull ops e = Ok r ->
       valid r /\ nondegenerate r /\ jsonable qtok r /\
-      JM.to_json CM.check_valid (to_content qtok r) = Ok (JM.print (to_content qtok r)) /\
-      JM.from_json CM.check_valid (JM.print (to_content qtok r)) = Ok (to_content qtok r).
+      JM.to_json CM.check_valid (to_content_r qtok reo r) = Ok (JM.print (to_content_r qtok reo r)) /\
+      JM.from_json CM.check_valid (JM.print (to_content_r qtok reo r)) = Ok (to_content_r qtok reo r).
 Proof. exact closure_reloads. Qed.
 
 Definition lx5_p0 : ext jv := match get_subset jv_eqb JNull lx5 4 0 with Ok r => r | Err _ => lx5 end.
@@ -182,8 +208,8 @@ Qed.
 (** nitool inject: the command-line model of C19 on the view of a valid extension and the extension-level model
     of C07 on the converted values refuse together, and when they accept the views of the results coincide
     (class dictionaries equal with their key order).  [values <> []]: argparse nargs='+'.  The side condition on
-    the class is that of C07_inject (a single value injected into a varying class of multiplicity one is stored
-    bare by the command: outside [nondegenerate]). *)
+    the class is that of C07_inject, i.e. exactly the region of the open finding N10 (a single value injected into a
+    varying class of multiplicity one is stored bare by the command: outside [nondegenerate]). *)
 Theorem C07_C19_inject_models_agree :
   forall (ftok : fval -> str) (e : ext jv) (c : cls) (k : key) (values : list str) (ty : option str) (force : bool)
          (sv : Cli.Model.stored),
